@@ -8,7 +8,9 @@ Per case (constructor + parameters):
      predicate of coq/Spec/Preds.v evaluated by the extracted code (driver op 21);
  (c) is_minimal (extracted) of the implementation's result where the docstring promises the minimal DFA.
 from_substrings / from_finite_language: (b) + validity (+ (c) for from_finite_language), and additionally an all-words
-comparison (proved comparators of property 0) with the obvious NFA / trie built by this module."""
+comparison (proved comparators of property 0) with the obvious NFA / trie built by this module.
+from_substring / from_suffix: additionally (a') against the mirror model of the code itself (KMP failure table and
+transition loop, coq/Model/KMP.v, proved equal to the specification model): validity, dfa_diff, exact table."""
 from __future__ import annotations
 
 import itertools
@@ -30,6 +32,7 @@ SINK = object()
 # driver op codes (coq/Model/D15.v)
 OPS = {"from_prefix": 1, "from_suffix": 2, "from_substring": 3, "from_subsequence": 4, "of_length": 5,
        "count_mod": 6, "nth_from_start": 7, "nth_from_end": 8, "universal_language": 9, "empty_language": 10}
+OP_KMP, OP_KMP_TABLE = 11, 12
 PROMISED_MINIMAL = {"from_prefix", "from_suffix", "from_substring", "from_subsequence", "of_length",
                     "nth_from_start", "nth_from_end", "from_finite_language", "universal_language", "empty_language"}
 
@@ -297,6 +300,11 @@ class Runner:
             if c.kind in OPS:
                 info["slots"]["ctor"] = len(reqs)
                 reqs.append((15, OPS[c.kind], enc.tree([c.params(sy), [] if timpl is None else [timpl]])))
+            if c.kind in ("from_substring", "from_suffix"):
+                # the mirror model of the code itself (KMP table + transition loop, coq/Model/KMP.v, driver op 11)
+                info["slots"]["kmp"] = len(reqs)
+                kp = [list(range(sy.n)), sy.word(c.kw["p"]), c.kw["contains"], c.kw.get("must_be_suffix", True)]
+                reqs.append((15, OP_KMP, enc.tree([kp, [] if timpl is None else [timpl]])))
             if timpl is not None:
                 if c.kind not in OPS:
                     info["slots"]["vm"] = len(reqs)
@@ -362,6 +370,37 @@ class Runner:
                 ctx.tally("table_differs_language_equal")
             elif info["canonical"]:
                 ctx.tally("table_identical")
+            # ---- (a') against the mirror model of the KMP construction ----
+            if "kmp" in ans:
+                mirror = enc.dec_res(ans["kmp"][0])
+                if mirror[0] != "ok":
+                    self.violation(f"{fam}:kmp-mirror-fails", f"{c.kind}{c.kw}: the KMP mirror model fails with {mirror} "
+                                   "(Coq: C15_kmp_faithful says it never does)", dict(rp, correspondence="C15/kmp-mirror"),
+                                   confirmed=False)
+                else:
+                    ctx.tally("kmp_mirror_compared")
+                    kdiff = enc.dec_res(ans["kmp"][1][1])
+                    if enc.tree(mirror[1]) != enc.tree(tmodel):
+                        self.violation(f"{fam}:kmp-mirror-vs-spec-model", f"{c.kind}{c.kw}: extracted KMP mirror model and "
+                                       "specification model differ (C15_kmp_faithful proves them equal: build problem)",
+                                       dict(rp, correspondence="C15/kmp-mirror"), confirmed=False)
+                    if kdiff[0] != "ok":
+                        self.violation(f"{fam}:comparator", f"{c.kind}: comparator failed {kdiff}", rp, confirmed=False)
+                    elif kdiff[1]:
+                        w = sy.unword(kdiff[1][0])
+                        got, want = d.accepts_input(w), c.pred(w)
+                        if got != want:
+                            problems.append(("language", f"accepts_input({w!r}) = {got}, the specified predicate gives {want}"))
+                        else:
+                            self.violation(f"{fam}:kmp-mirror-vs-impl-unconfirmed",
+                                           f"{c.kind}{c.kw}: comparator reports word {w!r} against the KMP mirror model but "
+                                           "implementation and predicate agree on it (model problem)",
+                                           dict(rp, correspondence="C15/kmp-mirror"), confirmed=False)
+                    elif info["canonical"] and enc.tree(mirror[1]) != enc.tree(info["timpl"]):
+                        ctx.structural += 1
+                        ctx.tally("kmp_mirror_table_differs_language_equal")
+                    elif info["canonical"]:
+                        ctx.tally("kmp_mirror_table_identical")
         else:
             valid_impl, minimal = ans["vm"]
             sp = ans["spec"]
@@ -617,6 +656,12 @@ def replay(ctx, case):
         sy = enc.SymMap(c.sigma, extra=c.kw.get("s", ""))
         m = ctx.driver.batch([(15, OPS[c.kind], enc.tree([c.params(sy), []]))])[0]
         print("model:", m[0])
+        if c.kind in ("from_substring", "from_suffix"):
+            kp = [list(range(sy.n)), sy.word(c.kw["p"]), c.kw["contains"], c.kw.get("must_be_suffix", True)]
+            m, t = ctx.driver.batch([(15, OP_KMP, enc.tree([kp, []])), (15, OP_KMP_TABLE, enc.tree([sy.word(c.kw["p"])]))])
+            print("KMP mirror model:", m[0])
+            tt = enc.dec_res(t)
+            print("KMP failure table of the mirror model:", [v - 1 for v in tt[1]] if tt[0] == "ok" else tt)
     known_finding_reproducer(ctx)
     Runner(ctx).run_cases([c])
     print("replay:", "VIOLATION reproduced" if ctx.violations else "no disagreement")
